@@ -338,8 +338,8 @@ def rule_R19_5(ctx):
                    "null; the renderer reads only its argument",
                    "a renderer that consults anything else is not a function "
                    "of the value")
-    printers = [f for f in prog.hand_fns()
-                if any((c.res or "").startswith("std::io::_print") for c in f.calls())]
+    printers = [f for f in prog.hand_fns() if not f.is_closure
+                and any((c.res or "").startswith(("std::io::_print", "std::io::stdout")) for c in f.calls())]
     if not r.require_floor("print builtin", len(printers), 1):
         return r
     graph = prog.call_graph()
@@ -348,6 +348,8 @@ def rule_R19_5(ctx):
         r.inst("%s: %d stdout write(s)" % (f.path, len(prints)))
         if len(prints) == 1 and not f.in_any_loop(prints[0].bb):
             r.ok()
+        elif not prints:
+            r.unproven.append("%s writes to stdout through a handle; the number of writes is not decided here (C17/L6 covers who may write)" % f.path)
         else:
             r.fail("%s | stdout-writes=%d" % (f.path, len(prints)),
                    "the print builtin must write exactly one line per call")
